@@ -195,13 +195,65 @@ def regex_sites(repo, lints_too=False):
     return sites
 
 
+INDEX_RE = re.compile(r"(?<![#!\w])((?:[A-Za-z_]\w*(?:\.[A-Za-z_]\w*|\([^()\n]*\))*|\)))\[([^\[\]\n]+)\]")
+NOT_INDEX_BASES = {"vec", "matches", "println", "eprintln", "format", "json", "write", "writeln", "assert", "assert_eq", "debug_assert", "cfg", "derive"}
+
+
+def in_cfg_windows(src, line_no):
+    """is the 1-based line inside the item / block that follows a `#[cfg(windows)]` attribute?"""
+    for a in range(line_no - 1, max(0, line_no - 80), -1):
+        if src.lines[a - 1].strip() == "#[cfg(windows)]":
+            depth, opened = 0, False
+            for j in range(a, len(src.lines)):
+                code = src.lines[j].split("//")[0]
+                depth += code.count("{") - code.count("}")
+                opened = opened or "{" in code
+                if j + 1 == line_no:
+                    return opened and (depth > 0 or "{" in code)
+                if opened and depth <= 0:
+                    break
+                if not opened and code.rstrip().endswith(";"):
+                    break
+            return False
+    return False
+
+
+def index_sites(repo, clippy):
+    """every `base[index]` expression of the non-test code that clippy did NOT report: `Index` impls on types that are not
+    slices (regex::Captures `caps[i]` / `caps["name"]` — panics for a group that took no part in the match —, serde_json
+    `value[i]`, BTreeMap/HashMap `map[&k]` where clippy cannot see the type) and code compiled out on this platform."""
+    flagged = {}
+    for s in clippy:
+        if s["lint"] in ("indexing_slicing", "string_slice"):
+            flagged.setdefault((s["file"], s["line"]), []).append(s["expr"].replace(" ", ""))
+    out = []
+    for rel in rust_files(repo):
+        src = Source.get(repo, rel)
+        for i, line in enumerate(src.lines, 1):
+            if src.is_test(i):
+                break
+            code = line.split("//")[0]
+            if not code.strip() or code.strip().startswith("#"):
+                continue
+            for m in INDEX_RE.finditer(code):
+                if m.group(1) in NOT_INDEX_BASES:
+                    continue
+                e = m.group(0).replace(" ", "")
+                if any(e in f or f in e for f in flagged.get((rel, i), [])):
+                    continue
+                lint = "regex::index_cfg_windows" if in_cfg_windows(src, i) else "regex::index"
+                out.append({"file": rel, "line": i, "lint": lint, "expr": norm(m.group(0))[:160], "text": norm(line)[:200]})
+    return out
+
+
 def inventory(repo=None):
     """list of site dicts with stable keys; (sites, mode)"""
     repo = repo or common.REPO
     Source._cache.clear()
     mode = "clippy+regex"
     try:
-        sites = clippy_sites(repo) + regex_sites(repo)
+        cs = clippy_sites(repo)
+        sites = cs + regex_sites(repo) + index_sites(repo, cs)
     except (RuntimeError, OSError, subprocess.TimeoutExpired) as ex:
         mode = "regex-only (clippy unavailable: %s)" % str(ex)[:300]
         sites = regex_sites(repo, lints_too=True)
@@ -333,6 +385,8 @@ GUARDS = [
      [r"if pattern\.is_empty\(\) && !is_regex \{ return Err"], []),
     ("jsonPlanChecked", C + "output.rs", None,
      [r"serde_json::to_value\(&self\.plan\)\.unwrap_or\(serde_json::Value::Null\)"], [r"\"plan\": self\.plan"]),
+    ("capturesGetChecked", C + "scanner.rs", "process_file_content",
+     [r"captures\.get\(0\)", r"if let Some\(cap\) = captures\.get\(i\)"], [r"captures\[", r"caps\["]),
     ("acronymAsciiGuard", C + "acronym.rs", "find_longest_match",
      [r"if !bytes\[i\]\.is_ascii\(\) \{ break; \} let ch = bytes\[i\] as char;"], []),
 ]
